@@ -169,6 +169,8 @@ def one_from_dir_perc(case):
     for i, j in case["edges"]:
         out[i].append(j)
     r = run_under(SimRandom(SEEDED, seed=1), EoN.estimate_SIR_prob_size_from_dir_perc, H)
+    if r.status != "exc" and r.status != "done":
+        return []        # not under the harness's control (seam limit): never a verdict
     if r.status != "done":
         return [V("crash", "estimate_SIR_prob_size_from_dir_perc/exception", "%r" % (r,), case)]
     return check_pair("estimate_SIR_prob_size_from_dir_perc", r.value, n, out, case)
@@ -255,6 +257,8 @@ def one_rules(case):
     if got != want:
         return [V("builder", "%s/edge-rule" % name, "edges %r, rule gives %r" % (got, want), case)]
     r = run_under(SimRandom(SEEDED, seed=1), EoN.estimate_nonMarkov_SIR_prob_size, G, xi, ze, tr)
+    if r.status != "exc" and r.status != "done":
+        return []        # not under the harness's control (seam limit): never a verdict
     if r.status != "done":
         return [V("crash", "estimate_nonMarkov_SIR_prob_size/exception", "%r" % (r,), case)]
     out += check_pair("estimate_nonMarkov_SIR_prob_size", r.value, n, outs, case)
@@ -265,6 +269,8 @@ def one_rules(case):
     outs2 = [[v for v in adj[u] if tabs.sir_delay(labels[u], labels[v]) <= tabs.sir_duration(labels[u])] for u in range(n)]
     r = run_under(SimRandom(SEEDED, seed=1), EoN.estimate_nonMarkov_SIR_prob_size_with_timing, G,
                   tabs.sir_trans_time, tabs.sir_rec_time)
+    if r.status != "exc" and r.status != "done":
+        return []        # not under the harness's control (seam limit): never a verdict
     if r.status != "done":
         return [V("crash", "estimate_nonMarkov_SIR_prob_size_with_timing/exception", "%r" % (r,), case)]
     return check_pair("estimate_nonMarkov_SIR_prob_size_with_timing", r.value, n, outs2, case)
@@ -275,6 +281,8 @@ def one_directed(case):
     n = len(labels)
     r = run_under(SimRandom(SEEDED, seed=case["seam"]["seed"]), EoN.estimate_directed_SIR_prob_size, G, case["tau"], case["gamma"])
     name = "estimate_directed_SIR_prob_size"
+    if r.status != "exc" and r.status != "done":
+        return []        # not under the harness's control (seam limit): never a verdict
     if r.status != "done":
         return [V("crash", "%s/exception" % name, "%r" % (r,), case)]
     try:
